@@ -161,7 +161,9 @@ func (c *Ctx) Report(key, what string, replay any) {
 	c.mu.Lock()
 	defer c.mu.Unlock()
 	for _, k := range c.known {
-		if k.Key == key {
+		// a known key ending in '*' matches every key with that prefix (one entry per failing input)
+		if k.Key == key || strings.HasSuffix(k.Key, "*") && strings.HasPrefix(key, strings.TrimSuffix(k.Key, "*")) {
+			key = k.Key
 			if !c.seenKnown[key] {
 				c.seenKnown[key] = true
 				fmt.Printf("KNOWN-FINDING: property=%s %s\n", c.ID, k.What)
@@ -175,6 +177,12 @@ func (c *Ctx) Report(key, what string, replay any) {
 		}
 	}
 	v := Violation{Key: key, What: what, Replay: replay}
+	if f := os.Getenv("VERIF_DUMP_KEYS"); f != "" {
+		if fh, err := os.OpenFile(f, os.O_CREATE|os.O_APPEND|os.O_WRONLY, 0o644); err == nil {
+			fmt.Fprintf(fh, "%s\t%s\n", key, strings.SplitN(what, "\n", 2)[0])
+			fh.Close()
+		}
+	}
 	if len(c.violations) < 20 {
 		dir := filepath.Join(VerifDir(), "replays", c.ID)
 		if v := os.Getenv("VERIF_EVIDENCE_DIR"); v != "" {
@@ -197,6 +205,15 @@ func firstLines(s string, n int) string {
 		l = append(l[:n], "...")
 	}
 	return strings.Join(l, "\n        ")
+}
+
+// KnownKeys returns the keys of the known findings of this property.
+func (c *Ctx) KnownKeys() []string {
+	var out []string
+	for _, k := range c.known {
+		out = append(out, k.Key)
+	}
+	return out
 }
 
 func (c *Ctx) NumViolations() int {
